@@ -346,6 +346,13 @@ def _convert_buildable(value: Any,
       for tag in value.__argument_tags__[arg_name]:
         arg_val = tag.new(arg_val)
     args.append(kwarg_to_cst(arg_name, conversion_fn(arg_val)))
+  # Arguments that carry tags but have no value.
+  for arg_name, tags in value.__argument_tags__.items():
+    if tags and arg_name not in value.__arguments__:
+      arg_val = config_lib.NO_VALUE
+      for tag in tags:
+        arg_val = tag.new(arg_val)
+      args.append(kwarg_to_cst(arg_name, conversion_fn(arg_val)))
   return cst.Call(func=conversion_fn(type(value)), args=args)
 
 
@@ -353,11 +360,12 @@ def _convert_buildable(value: Any,
 def _convert_tagged_value(value: Any,
                           conversion_fn: PyValToCstFunc) -> cst.CSTNode:
   """Converts a fdl.TaggedValue to CST."""
-  node = conversion_fn(value.value)
+  # A TaggedValue that was never given a value is written as `Tag.new()`.
+  node = conversion_fn(value.value) if 'value' in value.__arguments__ else None
   for tag in sorted(value.tags, key=repr, reverse=True):
     node = cst.Call(
         func=cst.Attribute(value=conversion_fn(tag), attr=cst.Name('new')),
-        args=[cst.Arg(node)])
+        args=[cst.Arg(node)] if node is not None else [])
   return node
 
 
